@@ -263,10 +263,12 @@ func (p *Proc) point(op Op) {
 
 // enter is called at the start of every vfs call. visible decides whether it is a scheduling point.
 // Faultable reports whether an injected I/O fault may hit this kind of call. Removals and
-// closes are excluded: a failed removal leaves residue by definition, not by a defect.
+// closes of read-only descriptors are excluded: a failed removal leaves residue by definition,
+// not by a defect. Closing a descriptor that was opened for writing ("closew") can fail (EIO,
+// ENOSPC, EDQUOT on delayed allocation or network filesystems); the descriptor is gone either way.
 func Faultable(kind string) bool {
 	switch kind {
-	case "create", "createx", "open", "tempfile", "rename", "readfile", "readdir", "write", "writefile", "link", "stat":
+	case "create", "createx", "open", "tempfile", "rename", "readfile", "readdir", "write", "writefile", "link", "stat", "closew":
 		return true
 	}
 	return false
@@ -791,8 +793,13 @@ func (f *fd) Close() error {
 	w := f.w
 	bn := filepath.Base(f.name)
 	// closing never affects another process: invisible
-	p := w.enter(Op{Kind: "close", Name: bn}, false)
-	ev := &Event{Pid: p.ID, Op: Op{Kind: "close", Name: bn}}
+	kind := "close"
+	if f.write && !f.closed {
+		kind = "closew"
+	}
+	p := w.enter(Op{Kind: kind, Name: bn}, false)
+	ev := &Event{Pid: p.ID, Op: Op{Kind: kind, Name: bn}}
+	failed := !f.closed && kind == "closew" && p.takeFault()
 	if f.closed {
 		ev.Err = "closed"
 		w.record(ev)
@@ -804,6 +811,12 @@ func (f *fd) Close() error {
 			f.owner.fds = append(f.owner.fds[:i:i], f.owner.fds[i+1:]...)
 			break
 		}
+	}
+	if failed {
+		// the descriptor is released, the data written so far stays; only the error is reported
+		ev.Err = "EIO"
+		w.record(ev)
+		return pathErr("close", f.name, syscall.EIO)
 	}
 	w.record(ev)
 	return nil
